@@ -381,7 +381,7 @@ func (b *BaseType) UnmarshalJSON(data []byte) error {
 		case []interface{}:
 			// it's an OvsSet
 			oSet := bt.Enum.([]interface{})
-			if tag, ok := oSet[0].(string); len(oSet) == 2 && ok && (tag == "uuid" || tag == "named-uuid") {
+			if len(oSet) == 2 && (oSet[0] == "uuid" || oSet[0] == "named-uuid") {
 				// a single uuid, the form a set of one element is written in
 				if _, ok := oSet[1].(string); ok {
 					b.Enum = []interface{}{bt.Enum}
